@@ -75,6 +75,10 @@ def c04(ctx):
     ctx.add(r_probe.run_swallow(fx, cfgname="A"))
     fb = ctx.fx("B")
     ctx.add(r_err.run(fb, crates=("libfs",), cfgname="B"))
+    # the status channel's consumer: an Error update becomes the exit status; every thread is joined
+    import p_thread
+    ctx.add(p_thread.main_consumer_table(fx))
+    ctx.add(p_thread.spawn_join(fx))
 
 
 PROPS = {}
